@@ -224,6 +224,8 @@ struct Interp<'a> {
     dut: DutModel,
     lexical_var: HashMap<*const Expr, bool>,
     frames: Vec<Vec<(String, i64)>>,
+    /// per frame: name -> position in the frame (lookups only; keeps huge environments fast)
+    frame_index: Vec<HashMap<String, usize>>,
     /// per frame: the counter of the loop that opened it
     frame_counters: Vec<Option<String>>,
     outputs: HashMap<String, OutVal>,
@@ -251,77 +253,76 @@ struct Interp<'a> {
 /// `while` does not, `let` is visible after its own statement, `declare` sees no variables.
 fn lexical(
     stmts: &[Stmt],
-    scopes: &mut Vec<Vec<String>>,
+    scopes: &mut Vec<std::collections::HashSet<String>>,
     out: &mut HashMap<*const Expr, bool>,
     reads: &mut Vec<String>,
+    reads_set: &mut std::collections::HashSet<String>,
 ) {
     fn visit(
         e: &Expr,
-        scopes: &[Vec<String>],
+        scopes: &[std::collections::HashSet<String>],
         out: &mut HashMap<*const Expr, bool>,
         reads: &mut Vec<String>,
+        reads_set: &mut std::collections::HashSet<String>,
     ) {
         match e {
             Expr::Num(_) => {}
             Expr::Id(name) => {
-                let is_var = scopes.iter().any(|s| s.iter().any(|v| v == name));
+                let is_var = scopes.iter().any(|s| s.contains(name));
                 out.insert(e as *const Expr, is_var);
-                if !is_var && !reads.contains(name) {
+                if !is_var && reads_set.insert(name.clone()) {
                     reads.push(name.clone());
                 }
             }
-            Expr::Un(_, a) | Expr::Random(a) => visit(a, scopes, out, reads),
+            Expr::Un(_, a) | Expr::Random(a) => visit(a, scopes, out, reads, reads_set),
             Expr::Bin(_, a, b) | Expr::SignExt(a, b) => {
-                visit(a, scopes, out, reads);
-                visit(b, scopes, out, reads);
+                visit(a, scopes, out, reads, reads_set);
+                visit(b, scopes, out, reads, reads_set);
             }
             Expr::Ite(c, a, b) => {
-                visit(c, scopes, out, reads);
-                visit(a, scopes, out, reads);
-                visit(b, scopes, out, reads);
+                visit(c, scopes, out, reads, reads_set);
+                visit(a, scopes, out, reads, reads_set);
+                visit(b, scopes, out, reads, reads_set);
             }
         }
     }
     for s in stmts {
         match s {
             Stmt::Let(name, e) => {
-                visit(e, scopes, out, reads);
-                let top = scopes.last_mut().unwrap();
-                if !top.contains(name) {
-                    top.push(name.clone());
-                }
+                visit(e, scopes, out, reads, reads_set);
+                scopes.last_mut().unwrap().insert(name.clone());
             }
             Stmt::Row(entries) => {
                 for en in entries {
                     if let Some(e) = en.expr() {
-                        visit(e, scopes, out, reads);
+                        visit(e, scopes, out, reads, reads_set);
                     }
                 }
             }
             Stmt::Loop(var, bound, body) => {
-                visit(bound, scopes, out, reads);
-                scopes.push(vec![var.clone()]);
-                lexical(body, scopes, out, reads);
+                visit(bound, scopes, out, reads, reads_set);
+                scopes.push([var.clone()].into_iter().collect());
+                lexical(body, scopes, out, reads, reads_set);
                 scopes.pop();
             }
             Stmt::Repeat(bound, entries) => {
-                visit(bound, scopes, out, reads);
-                scopes.push(vec!["n".to_string()]);
+                visit(bound, scopes, out, reads, reads_set);
+                scopes.push(["n".to_string()].into_iter().collect());
                 for en in entries {
                     if let Some(e) = en.expr() {
-                        visit(e, scopes, out, reads);
+                        visit(e, scopes, out, reads, reads_set);
                     }
                 }
                 scopes.pop();
             }
             Stmt::While(cond, body) => {
-                visit(cond, scopes, out, reads);
-                lexical(body, scopes, out, reads);
+                visit(cond, scopes, out, reads, reads_set);
+                lexical(body, scopes, out, reads, reads_set);
             }
             Stmt::ResetRandom => {}
             Stmt::Declare(_, e) => {
-                let empty: Vec<Vec<String>> = vec![vec![]];
-                visit(e, &empty, out, reads);
+                let empty = vec![std::collections::HashSet::new()];
+                visit(e, &empty, out, reads, reads_set);
             }
         }
     }
@@ -331,7 +332,13 @@ fn lexical(
 pub fn read_outputs(program: &Program) -> Vec<String> {
     let mut map = HashMap::new();
     let mut reads = vec![];
-    lexical(&program.stmts, &mut vec![vec![]], &mut map, &mut reads);
+    lexical(
+        &program.stmts,
+        &mut vec![std::collections::HashSet::new()],
+        &mut map,
+        &mut reads,
+        &mut std::collections::HashSet::new(),
+    );
     reads
 }
 
@@ -344,10 +351,10 @@ impl<'a> Interp<'a> {
         // innermost binding wins; also report how many bindings of that name exist
         let mut found = None;
         let mut count = 0;
-        for f in self.frames.iter().rev() {
-            if let Some((_, v)) = f.iter().find(|(n, _)| n == name) {
+        for (f, idx) in self.frames.iter().zip(self.frame_index.iter()).rev() {
+            if let Some(pos) = idx.get(name) {
                 if found.is_none() {
-                    found = Some(*v);
+                    found = Some(f[*pos].1);
                 }
                 count += 1;
             }
@@ -357,18 +364,22 @@ impl<'a> Interp<'a> {
 
     fn set_var(&mut self, name: &str, v: i64) {
         let top = self.frames.last_mut().unwrap();
-        if let Some(e) = top.iter_mut().find(|(n, _)| n == name) {
-            e.1 = v;
+        let idx = self.frame_index.last_mut().unwrap();
+        if let Some(pos) = idx.get(name) {
+            top[*pos].1 = v;
         } else {
+            idx.insert(name.to_string(), top.len());
             top.push((name.to_string(), v));
         }
     }
 
     fn env(&self) -> Vec<(String, i64)> {
+        // innermost binding wins (membership only, no iteration over the set)
+        let mut seen: std::collections::HashSet<&str> = std::collections::HashSet::new();
         let mut out: Vec<(String, i64)> = vec![];
         for f in self.frames.iter().rev() {
             for (n, v) in f {
-                if !out.iter().any(|(m, _)| m == n) {
+                if seen.insert(n.as_str()) {
                     out.push((n.clone(), *v));
                 }
             }
@@ -1018,6 +1029,7 @@ impl<'a> Interp<'a> {
         }
         let shadows = self.lookup_var(var).is_some();
         self.frames.push(vec![]);
+        self.frame_index.push(HashMap::new());
         self.frame_counters.push(Some(var.to_string()));
         self.loop_depth += 1;
         if self.loop_depth >= 3 {
@@ -1040,6 +1052,7 @@ impl<'a> Interp<'a> {
         self.loop_depth -= 1;
         if result.is_ok() {
             self.frames.pop();
+            self.frame_index.pop();
             self.frame_counters.pop();
             if shadows {
                 self.probe(Probe::ShadowUncoveredOnLoopExit);
@@ -1059,9 +1072,10 @@ pub fn run_reference(inp: &RefInput<'_>) -> RefRun {
     let mut reads = vec![];
     lexical(
         &inp.program.stmts,
-        &mut vec![vec![]],
+        &mut vec![std::collections::HashSet::new()],
         &mut lexical_var,
         &mut reads,
+        &mut std::collections::HashSet::new(),
     );
     let declares = inp.program.declares();
     let mut sig_names: Vec<String> = inp.signals.iter().map(|s| s.name.clone()).collect();
@@ -1074,6 +1088,7 @@ pub fn run_reference(inp: &RefInput<'_>) -> RefRun {
         dut,
         lexical_var,
         frames: vec![vec![]],
+        frame_index: vec![HashMap::new()],
         frame_counters: vec![None],
         outputs: HashMap::new(),
         first_layout: vec![],
